@@ -49,7 +49,7 @@ files = opt("--files")
 files = files.split(",") if files else list(FILE_PROPS)
 
 OPS = [
-    (r"<=", "<"), (r">=", ">"), (r"(?<![<>=!-])<(?![<=])", "<="), (r"(?<![<>=!-])>(?![>=])", ">="),
+    (r" <= ", " < "), (r" >= ", " > "), (r" < ", " <= "), (r" > ", " >= "), (r" < ", " > "), (r" > ", " < "),
     (r"==", "!="), (r"!=", "=="), (r"&&", "||"), (r"\|\|", "&&"),
     (r" \+ ", " - "), (r" - ", " + "), (r"\+= ", "-= "), (r"-= ", "+= "),
     (r"\btrue\b", "false"), (r"\bfalse\b", "true"),
@@ -58,7 +58,8 @@ OPS = [
     (r"if !", "if "), (r"\.is_empty\(\)", ".len() == 1"), (r"\.is_some\(\)", ".is_none()"), (r"\.is_none\(\)", ".is_some()"),
     (r"\bu16::MAX\b", "(u16::MAX - 1)"), (r"0x7f\b", "0x7e"), (r"0x80\b", "0x81"), (r"\.saturating_sub\(", ".wrapping_sub("),
     (r"checked_add", "checked_sub"), (r"\.take\(\)", ".clone()"), (r"Ordering::Less", "Ordering::Greater"), (r"Ordering::Greater", "Ordering::Less"),
-    (r"\.\.=", ".."), (r"(?<!\.)\.\.(?![.=])", "..="),
+    (r"\.\.=", ".."),
+    (r"\bu8\b", "u16"), (r" as u8\b", " as u16 as u8"), (r"\.len\(\)", ".len().saturating_sub(1)"), (r"\[0\]", "[1]"), (r" \* ", " + "), (r" / ", " * "), (r" % ", " / "), (r" \| ", " & "), (r" & ", " | "), (r" << ", " >> "), (r" >> ", " << "),
 ]
 SKIP_LINE = re.compile(r"^\s*(//|#\[|///|\*|use |pub use |mod |pub mod )|tracing::|debug_assert|trace!\(|unreachable!|unimplemented!|expect\(\"|panic!|assert!\(|fmt::|#!\[")
 
